@@ -461,13 +461,16 @@ def replay_batch(res, types, libs, name, exec_counts):
 
 def run(res, tier):
     res.assumptions += [
-        "calling-convention compatibility is established by execution on the host ABI (x86-64 SysV, plus ms_abi) only",
+        "calling-convention compatibility is established by execution on the host ABI (x86-64 SysV, plus ms_abi); on foreign targets the declared ABI string is compared with the convention of clang's LLVM declaration (CallConv.tla), nothing is executed there",
         "RustSym of Symbols.tla is what rustc/LLVM reference for a foreign item (confirmed by nm on every executed library)",
         "C text and boundary values of the type ids come from lib/ffi.py; Rust types, identifiers, link names, checksums from TLC",
     ]
     C.build()
     c04_cfgs.ensure()
     model(res)
+    # calling conventions on foreign targets (CallConv.tla): judged against the convention in clang's LLVM IR
+    import c04_callconv
+    c04_callconv.run(res, tier)
     thorough = tier == "thorough"
     counts = ffi.Counts()
     seed = C.seed()
